@@ -323,9 +323,24 @@ def run(tier, seed):
             continue
         seen_classes.add(key)
         m = minimise(f, sizes, seed, schedules) if len(seen_classes) <= 6 else f
-        out.violation(sig, {"engine": "c15", "kind": "sim", "sizes": sizes, "case": m["case"],
-                            "schedule": m.get("schedule"), "message": m.get("message"),
-                            "original_case": f["case"]})
+        doc = {"engine": "c15", "kind": "sim", "sizes": sizes, "case": m["case"],
+               "schedule": m.get("schedule"), "message": m.get("message"), "original_case": f["case"]}
+        if len(seen_classes) <= 6:
+            # A failure that does not reproduce from (script, schedule) alone depends on
+            # what the process ran before (state surviving between executions): keep the
+            # whole batch as the replay unit then.
+            ok = False
+            if doc["schedule"]:
+                r1 = run_requests([{"op": "c15-replay", "sizes": sizes, "case": doc["case"], "schedule": doc["schedule"]}],
+                                  workers=1, timeout=600)[0]
+                ok = bool(r1.get("reproduced")) and sig_of({"message": r1.get("message", ""), "case": doc["case"]})["class"] == sig["class"]
+            if not ok:
+                batch = next((rq for rq, r in zip(reqs, res) if f in r.get("failures", [])), None)
+                if batch is not None:
+                    doc = {"engine": "c15", "kind": "sim-batch", "request": batch, "case_id": f["case"]["id"],
+                           "message": f.get("message"), "note": "not reproducible from script+schedule alone: depends on "
+                           "earlier executions in the same process; replay re-runs the whole batch in a fresh process"}
+        out.violation(sig, doc)
 
     # ------------------------------------------------------------ real-process tier
     rcases, have_rustfmt = real_cases(tier, seed)
@@ -395,6 +410,13 @@ def replay(doc):
             return False, r
         got = sig_of({"message": r.get("message", ""), "case": doc["case"]})["class"]
         return got == doc["signature"]["class"], r
+    if kind == "sim-batch":
+        r = run_requests([doc["request"]], workers=1, timeout=1800)[0]
+        want = doc["signature"]["class"]
+        for f in r.get("failures", []):
+            if sig_of(f)["class"] == want:
+                return True, {"case": f["case"]["id"], "message": f.get("message")}
+        return False, {"failures": len(r.get("failures", []))}
     if kind == "real":
         scratch = make_scratch("c15-replay")
         try:
